@@ -59,6 +59,7 @@ def TV.ofString? : String → Option TV
   | "ok" => some .ok | "plain" => some .plain
   | "verr0" => some (.verr false) | "verr1" => some (.verr true)
   | "wrap0" => some (.wrapped false) | "wrap1" => some (.wrapped true)
+  | "join0" => some (.wrapped false) | "join1" => some (.wrapped true)   -- inside a multi-error: found by errors.As all the same
   | _ => none
 
 /-! ### tiny parsing helpers for the line protocol (driver side) -/
